@@ -107,6 +107,15 @@ class NoneV(Val):
         return "None"
 
 
+class SliceV(Val):
+    """a slice object built with slice(lo, hi)"""
+    def __init__(self, lo=None, hi=None):
+        self.lo, self.hi = lo, hi
+
+    def __repr__(self):
+        return f"slice({self.lo!r}, {self.hi!r})"
+
+
 class StrV(Val):
     def __init__(self, const=None):
         self.const = const
@@ -1201,6 +1210,14 @@ class Interp:
                 pos += 1
                 continue
             idx = self.eval(p, fr)
+            if isinstance(idx, SliceV):
+                for b_ in (idx.lo, idx.hi):
+                    if isinstance(b_, Num):
+                        self.check_index(b_, ax, node, base)
+                self.usage(node, "slice-object", ax, "positional")
+                out.append(Ax(f"sub({ax})") if ax.symbolic else UNK)
+                pos += 1
+                continue
             if isinstance(idx, Num):
                 self.check_index(idx, ax, node, base)
                 if idx.space is None or (idx.const is not None):
@@ -1508,4 +1525,4 @@ def join_env(a, b, prefer_b=False):
 
 BUILTINS = {"len", "range", "enumerate", "zip", "map", "list", "tuple", "set", "dict", "min", "max", "int", "float", "bool",
             "print", "isinstance", "issubclass", "callable", "hasattr", "getattr", "sum", "abs", "sorted", "reduce", "str",
-            "ValueError", "TypeError", "super", "iter", "next", "any", "all", "round", "reversed", "frozenset"}
+            "ValueError", "TypeError", "super", "iter", "next", "any", "all", "round", "reversed", "frozenset", "slice"}
